@@ -97,44 +97,44 @@ Proof. vm_compute. reflexivity. Qed.
 (* Clause 2, "the index is never consulted after the data it was built from changed": in every
    state reachable by any program, a cached index stands for exactly the collection's current
    vectors (all of one dimension).  Uses the per-run fact that every mutator invalidates. *)
-Theorem C06_cache_discipline : forall ops c x snap,
-  aget (run gen_invalidates gen_keep gen_eps_bits gen_thr_num gen_thr_den [] ops) c = Some x ->
+Theorem C06_cache_discipline : forall maxd ops c x snap,
+  aget (run gen_invalidates gen_keep gen_eps_bits gen_thr_num gen_thr_den maxd [] ops) c = Some x ->
   cache x = Some snap -> snap = data x /\ dims_consistent snap = true.
 Proof.
-  exact (fun ops => cache_discipline gen_invalidates gen_keep gen_eps_bits gen_thr_num gen_thr_den
+  exact (fun maxd ops => cache_discipline gen_invalidates gen_keep gen_eps_bits gen_thr_num gen_thr_den maxd
                       gen_all_invalidate ops [] (CacheInv_init)).
 Qed.
 
 (* ... and the searches therefore take the cached branch only when it stands for the live data and
    the query has the indexed dimension; otherwise they run the exact path over the live data *)
-Theorem C06_search_path : forall ops c q k,
-  let s := run gen_invalidates gen_keep gen_eps_bits gen_thr_num gen_thr_den [] ops in
-  match search_path gen_cached_dim_guard s c q k with
+Theorem C06_search_path : forall maxd ops c q k,
+  let s := run gen_invalidates gen_keep gen_eps_bits gen_thr_num gen_thr_den maxd [] ops in
+  match search_path gen_cached_dim_guard maxd s c q k with
   | PCached snap => snap = data (cget s c) /\ forall kv, In kv snap -> same_dim (snd kv) q = true
   | PExact m d => m = 0 /\ d = data (cget s c)
   | PPanic => False
   | _ => True
   end.
 Proof.
-  intros ops c q k. rewrite gen_dim_guard. apply search_path_sound.
-  exact (cache_discipline gen_invalidates gen_keep gen_eps_bits gen_thr_num gen_thr_den
+  intros maxd ops c q k. rewrite gen_dim_guard. apply search_path_sound.
+  exact (cache_discipline gen_invalidates gen_keep gen_eps_bits gen_thr_num gen_thr_den maxd
            gen_all_invalidate ops [] (CacheInv_init)).
 Qed.
 
 (* searches with a metadata filter (search_similar_filtered / search_filtered_in_collection, any
    strategy): an exact search over the stored vectors that match the filter -- C06_exact_topk applies
    with d := those vectors -- or, with a valid cached index, index candidates restricted to them *)
-Theorem C06_filtered_search_path : forall ops t c q k b strat,
-  let s := run gen_invalidates gen_keep gen_eps_bits gen_thr_num gen_thr_den [] ops in
-  match filtered_path gen_cached_dim_guard gen_post_filter_fallback s t c q k b strat with
+Theorem C06_filtered_search_path : forall maxd ops t c q k b strat,
+  let s := run gen_invalidates gen_keep gen_eps_bits gen_thr_num gen_thr_den maxd [] ops in
+  match filtered_path gen_cached_dim_guard maxd gen_post_filter_fallback s t c q k b strat with
   | FExact m => m = matching t c b (data (cget s c))
   | FCachedOrExact snap m => snap = data (cget s c) /\ m = matching t c b (data (cget s c))
   | FErr _ | FEmpty => True
   | _ => False
   end.
 Proof.
-  intros ops t c q k b strat. rewrite gen_dim_guard, gen_fallback. apply filtered_path_sound.
-  exact (cache_discipline gen_invalidates gen_keep gen_eps_bits gen_thr_num gen_thr_den
+  intros maxd ops t c q k b strat. rewrite gen_dim_guard, gen_fallback. apply filtered_path_sound.
+  exact (cache_discipline gen_invalidates gen_keep gen_eps_bits gen_thr_num gen_thr_den maxd
            gen_all_invalidate ops [] (CacheInv_init)).
 Qed.
 
@@ -145,25 +145,25 @@ Qed.
    collection's slot (search_path_slot with the aliasing slot map; with the identity map it IS
    search_path): even in a state satisfying the invariant it is answered from the other collection's
    index. *)
-Theorem C06_search_path_slot_identity : forall dg s c q k,
-  search_path_slot dg (fun x => x) s c q k = search_path dg s c q k.
+Theorem C06_search_path_slot_identity : forall maxd dg s c q k,
+  search_path_slot dg maxd (fun x => x) s c q k = search_path dg maxd s c q k.
 Proof. exact search_path_slot_id. Qed.
 
 Theorem C06_reserved_name_refuted :
-  let s := run gen_invalidates gen_keep gen_eps_bits gen_thr_num gen_thr_den []
+  let s := run gen_invalidates gen_keep gen_eps_bits gen_thr_num gen_thr_den 0 []
              [OStore 0 0 [1065353216; 1065353216]; OBuild 0; OStore 9 7 [1073741824; 1065353216]] in
   (forall c x snap, aget s c = Some x -> cache x = Some snap -> snap = data x /\ dims_consistent snap = true) /\
-  exists snap, search_path_slot true (fun c => if N.eqb c 9 then 0 else c) s 9 [1065353216; 1065353216] 1 = PCached snap
+  exists snap, search_path_slot true 0 (fun c => if N.eqb c 9 then 0 else c) s 9 [1065353216; 1065353216] 1 = PCached snap
                /\ snap <> data (cget s 9).
-Proof. exact (reserved_name_refuted gen_invalidates gen_keep gen_eps_bits gen_thr_num gen_thr_den gen_all_invalidate). Qed.
+Proof. exact (reserved_name_refuted gen_invalidates gen_keep gen_eps_bits gen_thr_num gen_thr_den 0 gen_all_invalidate eq_refl). Qed.
 
 (* the discipline is necessary: for ANY engine parameters, a mutator that does not invalidate
    admits a short program after which the cached index is stale (this is F-C06-stale; the four
    programs for store_embedding_with_metadata, batch_delete_embeddings, clear, delete_collection
    failed on the real code before the repair) *)
-Theorem C06_cache_discipline_needed : forall inval keep eps num den m,
+Theorem C06_cache_discipline_needed : forall inval keep eps num den maxd m,
   In m mutators -> inval m = false ->
-  ~ (forall c x snap, aget (run inval keep eps num den [] (stale_witness m)) c = Some x ->
+  ~ (forall c x snap, aget (run inval keep eps num den maxd [] (stale_witness m)) c = Some x ->
        cache x = Some snap -> snap = data x /\ dims_consistent snap = true).
 Proof. exact cache_discipline_needed. Qed.
 
